@@ -522,6 +522,151 @@ def d5_text_as_supplied(chk: Check) -> None:
         raise AnalysisError("text branch of wrap_type not found")
 
 
+
+def d6_set_members_by_value(chk: Check) -> None:
+    """A member of a set may be a tagged scalar; a TaggedScalar does not
+    compare equal to the plain text a path segment carries.  A key lookup
+    that compares the raw member misses an existing member, so the optional
+    driver *adds* what it believes to be missing (creation on an existing
+    path) and a required lookup finds nothing."""
+    from sa.coords import reaching_def
+    prog = chk.prog
+    chk.rule("C09-D6", "a set member is compared for equality with segment "
+             "text only after its tag wrapper is removed (`.value` of a "
+             "TaggedScalar)", floor=1)
+
+    def unwrapped(e: ast.AST, member: str, at: ast.AST) -> bool:
+        if isinstance(e, ast.Name) and e.id != member:
+            d = reaching_def(e.id, at)
+            return d is not None and unwrapped(d, member, at)
+        if isinstance(e, ast.IfExp):
+            t = e.test
+            return isinstance(t, ast.Call) and src(t.func) == "isinstance" \
+                and src(t.args[0]) == member and \
+                "TaggedScalar" in src(t.args[1]) and \
+                src(e.body) == member + ".value" and src(e.orelse) == member
+        return False
+
+    def derives(e: ast.AST, member: str, at: ast.AST) -> bool:
+        if isinstance(e, ast.Name):
+            if e.id == member:
+                return True
+            d = reaching_def(e.id, at)
+            return d is not None and not isinstance(d, ast.Name) and \
+                isinstance(d, ast.IfExp) and any(
+                    isinstance(x, ast.Name) and x.id == member
+                    for x in ast.walk(d))
+        return False
+
+    for fi in prog.funcs_in("yamlpath/processor.py"):
+        for loop in walk_local(fi.node):
+            if not (isinstance(loop, ast.For) and
+                    isinstance(loop.target, ast.Name) and
+                    isinstance(loop.iter, ast.Name)):
+                continue
+            in_set = any(
+                f.kind == "cond" and f.pol and isinstance(f.expr, ast.Call)
+                and src(f.expr.func) == "isinstance" and
+                src(f.expr.args[0]) == loop.iter.id and
+                "Set" in src(f.expr.args[1]) for f in facts_at(loop))
+            if not in_set:
+                continue
+            member = loop.target.id
+            seg_text: Set[str] = set()
+            grew = True
+            while grew:
+                grew = False
+                for a in walk_local(fi.node):
+                    if not isinstance(a, (ast.Assign, ast.AnnAssign)) or \
+                            a.value is None:
+                        continue
+                    v = a.value
+                    if isinstance(v, ast.Call) and src(v.func) == "str" \
+                            and v.args:
+                        v = v.args[0]
+                    if ".unescaped[" in src(v) or ".escaped[" in src(v) or \
+                            (isinstance(v, ast.Name) and v.id in seg_text):
+                        tg = a.targets if isinstance(a, ast.Assign) \
+                            else [a.target]
+                        new_names = {x.id for t in tg for x in ast.walk(t)
+                                     if isinstance(x, ast.Name)} - seg_text
+                        if new_names:
+                            seg_text |= new_names
+                            grew = True
+            for c in walk_local(loop):
+                if not (isinstance(c, ast.Compare) and len(c.ops) == 1 and
+                        isinstance(c.ops[0], (ast.Eq, ast.NotEq))):
+                    continue
+                for side, other in ((c.left, c.comparators[0]),
+                                    (c.comparators[0], c.left)):
+                    if not derives(side, member, c):
+                        continue
+                    if src(other) not in seg_text:
+                        continue
+                    text = "{}: set member == segment text".format(fi.short)
+                    if unwrapped(side, member, c):
+                        chk.ok("C09-D6", fi, c, text,
+                               "the member's .value is compared when it is "
+                               "a TaggedScalar")
+                    else:
+                        chk.fail("C09-D6", fi, c, text,
+                                 "`{}` compares the raw member: a tagged "
+                                 "member never equals the segment text, so "
+                                 "an existing member is not found (and the "
+                                 "optional driver adds it again)".format(
+                                     src(c)))
+
+
+def d7_filter_iff_successor(chk: Check, rid: str = "C09-D7") -> None:
+    """`*` hands its children on unfiltered only when it is the last
+    segment; when a segment follows, the children are pre-filtered by it.
+    The optional-match driver relies on that: an unfiltered child that lacks
+    the next key is a place where the key is *created*.  The dispatcher is
+    specialised for every path length 1..4 and every position of the `*`
+    in it (partial evaluation; nothing is executed)."""
+    from sa.peval import Const, PEval
+    prog = chk.prog
+    chk.rule(rid, "_get_nodes_by_match_all pre-filters the children by the "
+             "next segment exactly when a next segment exists (all path "
+             "lengths 1..4 x positions)", floor=10)
+    fi = prog.func("Processor._get_nodes_by_match_all")
+    params = fi.params()
+    ypath, depth = params[2], params[3]
+    segs = None
+    for a in walk_local(fi.node):
+        if isinstance(a, (ast.Assign, ast.AnnAssign)) and a.value is not None \
+                and src(a.value) in (ypath + ".escaped", ypath + ".unescaped"):
+            segs = src(a.targets[0] if isinstance(a, ast.Assign)
+                       else a.target)
+    if segs is None:
+        raise AnalysisError("segment list of the * dispatcher not found")
+    for n in range(1, 5):
+        for i in range(0, n):
+            pe = PEval()
+            res = pe.specialise(
+                fi.node.body,
+                {depth: Const(i), "len({})".format(segs): Const(n)},
+                pinned=[depth, segs])
+            calls = sorted({src(c.func).split("_")[-1]
+                            for s_ in res for c in ast.walk(s_)
+                            if isinstance(c, ast.Call) and
+                            "_get_nodes_by_match_all_" in src(c.func)})
+            want = ["filtered"] if i + 1 < n else ["unfiltered"]
+            text = "{} segment(s), `*` at position {}".format(n, i)
+            if calls == want:
+                chk.ok(rid, fi, None, text, want[0])
+            else:
+                chk.fail(rid, fi, None, text,
+                         "the children are handed on {} although {}: {}"
+                         .format("/".join(calls) or "undecided",
+                                 "a segment follows" if i + 1 < n
+                                 else "this is the last segment",
+                                 "children lacking the next key reach the "
+                                 "optional driver, which creates it in each"
+                                 if i + 1 < n else
+                                 "the last segment filters by nothing"))
+
+
 def run(chk: Check) -> None:
     prog = chk.prog
     cl = read_closure(prog)
@@ -536,6 +681,8 @@ def run(chk: Check) -> None:
     d2_guarded_creation(chk, ef)
     d3_tail_only(chk, ef)
     d5_text_as_supplied(chk)
+    d6_set_members_by_value(chk)
+    d7_filter_iff_successor(chk)
     from rules.c06 import falsy_rule
     falsy_rule(chk, "C09-D4", "yamlpath/processor.py", 30,
                doc_exprs={"self.data", "<.node>"})
